@@ -804,3 +804,11 @@ package iscp
 //@   assert call sentStorage).List: flushed && arg1 == u.ID
 //@   ensures imp(result == nil, flushed && sawEmpty)
 //@   loop 1 invariant flushed
+
+// ---------------------------------------------------------------- C03: metadata forwarders
+// The per-source forwarders of a metadata subscription live as long as the wire connection they
+// read from: they never watch a context (the context handed to
+// OpenDownstream is the caller's request context and is released as soon as the open returns).
+//@ func (*Conn).subscribeDownstreamMetadata$1$1
+//@   props C03
+//@   forbid call Done
